@@ -2261,6 +2261,166 @@ pub(crate) mod persistence {
     }
 }
 
+/// Verification hook (feature `verif`): builds stored query origins from plain edge tuples and
+/// decodes them again, so an external harness can check that edges round-trip exactly.
+#[cfg(feature = "verif")]
+#[allow(dead_code)]
+pub(crate) mod verif_origin {
+    use super::*;
+
+    /// One dependency edge in plain form.
+    #[derive(Clone, Copy, Debug, PartialEq, Eq, Hash)]
+    pub struct EdgeSpec {
+        pub output: bool,
+        pub ingredient: u32,
+        pub index: u32,
+        pub generation: u32,
+    }
+
+    /// Largest ingredient index / slot index accepted by the constructors.
+    pub const MAX_INGREDIENT: u32 = 0x7FFF_FFFF;
+    pub const MAX_INDEX: u32 = Id::MAX_U32 - 1;
+
+    fn to_edge(e: &EdgeSpec) -> QueryEdge {
+        // SAFETY: callers pass indices below `Id::MAX_U32` (checked here).
+        assert!(e.index < Id::MAX_U32);
+        let id = unsafe { Id::from_index(e.index) }.with_generation(e.generation);
+        let key = DatabaseKeyIndex::new(IngredientIndex::new(e.ingredient), id);
+        if e.output {
+            QueryEdge::output(key)
+        } else {
+            QueryEdge::input(key)
+        }
+    }
+
+    fn from_edge(e: QueryEdge) -> EdgeSpec {
+        let key = e.key();
+        EdgeSpec {
+            output: matches!(e.kind(), QueryEdgeKind::Output),
+            ingredient: key.ingredient_index().as_u32(),
+            index: key.key_index().index(),
+            generation: key.key_index().generation(),
+        }
+    }
+
+    fn from_key(output: bool, key: DatabaseKeyIndex) -> EdgeSpec {
+        EdgeSpec {
+            output,
+            ingredient: key.ingredient_index().as_u32(),
+            index: key.key_index().index(),
+            generation: key.key_index().generation(),
+        }
+    }
+
+    /// What a stored origin yields after each step of its life.
+    #[derive(Clone, Debug, Default, PartialEq, Eq)]
+    pub struct Report {
+        /// `true` if the origin decodes to the kind (derived / untracked) it was built as
+        pub kind_ok: bool,
+        pub packed: bool,
+        /// edges in stored order, and the same in reverse iteration (reversed back)
+        pub edges: Vec<EdgeSpec>,
+        pub edges_rev: Vec<EdgeSpec>,
+        /// the input view and the output view
+        pub inputs: Vec<EdgeSpec>,
+        pub outputs: Vec<EdgeSpec>,
+        /// marker stored in the extra data right after construction (None = no extra data)
+        pub extra_after_build: Option<bool>,
+        /// edges and marker after `get_or_insert_extra` set the marker
+        pub edges_after_extra: Vec<EdgeSpec>,
+        pub extra_after_insert: Option<bool>,
+        /// after `clear_edges`: number of edges left, marker, kind still right
+        pub edges_after_clear: usize,
+        pub extra_after_clear: Option<bool>,
+        pub kind_ok_after_clear: bool,
+    }
+
+    fn decode(origin: &OriginAndExtra, untracked: bool) -> (bool, bool, Vec<EdgeSpec>, Vec<EdgeSpec>) {
+        let (kind_ok, edges) = match origin.origin() {
+            QueryOriginRef::Derived(edges) => (!untracked, edges),
+            QueryOriginRef::DerivedUntracked(edges) => (untracked, edges),
+            _ => return (false, false, Vec::new(), Vec::new()),
+        };
+        let fwd: Vec<EdgeSpec> = edges.iter().map(from_edge).collect();
+        let mut rev: Vec<EdgeSpec> = edges.iter().rev().map(from_edge).collect();
+        rev.reverse();
+        let packed = matches!(edges.data, QueryEdgesData::Packed(_));
+        (kind_ok, packed, fwd, rev)
+    }
+
+    /// Builds a stored origin from `edges` (`with_extra`: co-allocate extra revision data carrying a
+    /// marker), decodes it, attaches extra data afterwards, clears the edges, and reports every view.
+    #[cfg(all(not(feature = "persistence"), not(feature = "shuttle")))]
+    pub fn round_trip(edges: &[EdgeSpec], untracked: bool, with_extra: bool) -> Report {
+        let qe: Vec<QueryEdge> = edges.iter().map(to_edge).collect();
+        let extra = if with_extra {
+            let mut inner = QueryRevisionsExtraInner::empty();
+            inner.cycle_converged = true;
+            QueryRevisionsExtra(Some(inner))
+        } else {
+            Default::default()
+        };
+        let mut origin = if untracked {
+            OriginAndExtra::derived_untracked(qe.into_iter(), extra)
+        } else {
+            OriginAndExtra::derived(qe.into_iter(), extra)
+        };
+        let mut report = Report::default();
+        let (kind_ok, packed, fwd, rev) = decode(&origin, untracked);
+        report.kind_ok = kind_ok;
+        report.packed = packed;
+        report.edges = fwd;
+        report.edges_rev = rev;
+        report.inputs = origin.origin().inputs().map(|k| from_key(false, k)).collect();
+        report.outputs = origin.origin().outputs().map(|k| from_key(true, k)).collect();
+        report.extra_after_build = origin.extra().map(|e| e.cycle_converged);
+        origin.get_or_insert_extra().cycle_converged = true;
+        report.extra_after_insert = origin.extra().map(|e| e.cycle_converged);
+        report.edges_after_extra = decode(&origin, untracked).2;
+        origin.clear_edges();
+        let (kind_ok, _, fwd, _) = decode(&origin, untracked);
+        report.kind_ok_after_clear = kind_ok;
+        report.edges_after_clear = fwd.len();
+        report.extra_after_clear = origin.extra().map(|e| e.cycle_converged);
+        report
+    }
+
+    /// Serializes a persisted origin built from `edges`.
+    #[cfg(feature = "persistence")]
+    pub fn serialize<S: serde::Serializer>(
+        edges: &[EdgeSpec],
+        untracked: bool,
+        serializer: S,
+    ) -> Result<S::Ok, S::Error> {
+        use serde::Serialize;
+        let qe: Vec<QueryEdge> = edges.iter().map(to_edge).collect();
+        let origin = if untracked {
+            persistence::PersistentQueryOrigin::derived_untracked(qe)
+        } else {
+            persistence::PersistentQueryOrigin::derived(qe)
+        };
+        origin.serialize(serializer)
+    }
+
+    /// Deserializes a persisted origin: (is untracked, edges).
+    #[cfg(feature = "persistence")]
+    pub fn deserialize<'de, D: serde::Deserializer<'de>>(
+        deserializer: D,
+    ) -> Result<(bool, Vec<EdgeSpec>), D::Error> {
+        use serde::Deserialize;
+        let origin = persistence::PersistentQueryOrigin::deserialize(deserializer)?;
+        Ok(match &origin {
+            persistence::PersistentQueryOrigin::Derived(edges) => {
+                (false, edges.iter().copied().map(from_edge).collect())
+            }
+            persistence::PersistentQueryOrigin::DerivedUntracked(edges) => {
+                (true, edges.iter().copied().map(from_edge).collect())
+            }
+            _ => (false, Vec::new()),
+        })
+    }
+}
+
 #[cfg(test)]
 mod tests {
     use std::mem::size_of;
